@@ -228,10 +228,12 @@ static int dev_read(vbi_capture* vc, vbi_capture_buffer** raw, vbi_capture_buffe
   SimDev* d = (SimDev*)vc;
   Universe& u = *d->u;
   simk::Kernel& k = u.k;
+  if (getenv("ZSIM_KTRACE")) fprintf(stderr, "    dev_read: fd %d open %d services %x now %lld t_next %lld thread_mode %d\n", d->fd, k.get(d->fd) != nullptr, d->services, (long long)k.now_ns(), (long long)d->t_next, d->thread_mode);
   if (k.get(d->fd) == nullptr) { errno = EBADF; return -1; }  // the daemon's "dirty hack" closed the descriptor
   if (raw && *raw == nullptr) { /* raw data is never available from this device */ }
   int64_t deadline = k.now_ns() + (int64_t)timeout->tv_sec * 1000000000ll + (int64_t)timeout->tv_usec * 1000ll;
   for (;;) {
+    k.cancel_point();  // read(2) is a cancellation point when it is entered, not only while it blocks
     if (d->services != 0 && k.now_ns() >= d->t_next) break;
     if (!d->thread_mode && k.now_ns() >= deadline) return 0;
     // a driver without select() support blocks in read(2) (a cancellation point) until a frame arrives
@@ -714,11 +716,17 @@ struct ProxyWorld : World {
       sched.set_before_switch([&k](sim::Task* t) { simk::Thread& th = k.thr_of(t); g_sut_depth = (th.pid == DAEMON_PID && th.in_kernel == 0) ? 1 : 0; });
       sched.set_after_switch([&u] { g_sut_depth = 0; audit(u); });
 
-      int rc = sched.run(20000000);
+      int rc = sched.run(3000000);
       ctx.sim_seconds = (double)sched.now_ns() / 1e9;
       if (!ctx.failed) {
         if (rc == 1) ctx.fail("deadlock", "no task can run and no timer is pending, but tasks are still blocked");
-        else if (rc == 2) ctx.fail("harness:budget", "scheduler switch budget exhausted");
+        else if (rc == 2) {
+          zvbid_dev_view dv; zvbid_dev(&dv);
+          std::string cl;
+          for (int i = 0; i < zvbid_n_clients(); i++) { zvbid_client_view v; zvbid_client(i, &v); char b[96]; snprintf(b, sizeof b, " [state %d services %x queued %d]", v.state, v.all_services, v.queued); cl += b; }
+          ctx.fail("livelock", "the simulated time stands still at %.3f s while tasks keep running (scheduler switch budget exhausted): device open %d thread %d/%d services %x max_lines %d sliced %d free %d; clients:%s",
+                   (double)sched.now_ns() / 1e9, dv.open, dv.use_thread, dv.thread_active, dv.all_services, dv.max_lines, dv.n_sliced, dv.n_free, cl.c_str());
+        }
       }
       if (!ctx.failed && u.daemon_exited && !u.term_sent) ctx.fail("oracle:daemon-exit", "the daemon exited with status %d without being told to", u.daemon_status);
       if (!ctx.failed) for (auto& c : u.clients) for (size_t i = 0; i < c.iv.size() && !ctx.failed; i++) check_interval(u, c, i);
